@@ -86,6 +86,48 @@ Theorem C07_merge_assoc : forall (n : nat) (xs ys : list (mcool Z)) (b1 b2 b3 : 
 Proof. exact merge_assoc. Qed.
 Print Assumptions C07_merge_assoc.
 
+(** the composition law  agg (map agg Gs) = agg (concat Gs)  and its instances: the exact sum and the int64
+    machine sum obey it unconditionally; max and min (which return the default 0 on an empty list) obey it
+    for non-empty groups, and the unguarded form is false for them *)
+Theorem C07_sum_compose : forall Gs : list (list Z), sumZ (map sumZ Gs) = sumZ (concat Gs).
+Proof. exact sum_compose. Qed.
+Print Assumptions C07_sum_compose.
+Theorem C07_int64_sum_compose : forall Gs : list (list Z), agg_col ASum (map (agg_col ASum) Gs) = agg_col ASum (concat Gs).
+Proof. exact wsum_compose. Qed.
+Print Assumptions C07_int64_sum_compose.
+Theorem C07_max_compose : forall Gs : list (list Z), Forall (fun G => G <> []) Gs -> lmax (map lmax Gs) = lmax (concat Gs).
+Proof. exact max_compose. Qed.
+Print Assumptions C07_max_compose.
+Theorem C07_min_compose : forall Gs : list (list Z), Forall (fun G => G <> []) Gs -> lmin (map lmin Gs) = lmin (concat Gs).
+Proof. exact min_compose. Qed.
+Print Assumptions C07_min_compose.
+Theorem C07_max_compose_unguarded_refuted : exists Gs, lmax (map lmax Gs) <> lmax (concat Gs).
+Proof. exact max_compose_unguarded_refuted. Qed.
+Print Assumptions C07_max_compose_unguarded_refuted.
+
+(** associativity for every aggregation that obeys the composition law on
+    non-empty groups and returns a single value unchanged; instances max and min *)
+Theorem C07_merge_assoc_any_agg : forall (V : Type) (agg : list V -> V),
+  (forall Gs : list (list V), Forall (fun G => G <> []) Gs -> agg (map agg Gs) = agg (concat Gs)) ->
+  (forall v, agg [v] = v) ->
+  forall (n : nat) (xs ys : list (mcool V)) (b1 b2 b3 : Z),
+  xs <> [] -> (1 <= n)%nat -> Forall (ValidIn n) xs -> Forall (ValidIn n) ys ->
+  0 <= b1 -> 0 <= b2 -> 0 <= b3 ->
+  exists m, merged_px agg xs b1 = Ok m /\
+    merged_px agg (mk_cool n m :: ys) b2 = merged_px agg (xs ++ ys) b3.
+Proof. intros V agg H1 H2. exact (merge_assoc_gen agg H1 H2). Qed.
+Print Assumptions C07_merge_assoc_any_agg.
+Theorem C07_merge_assoc_max : forall (n : nat) (xs ys : list (mcool Z)) (b1 b2 b3 : Z),
+  xs <> [] -> (1 <= n)%nat -> Forall (ValidIn n) xs -> Forall (ValidIn n) ys -> 0 <= b1 -> 0 <= b2 -> 0 <= b3 ->
+  exists m, merged_px lmax xs b1 = Ok m /\ merged_px lmax (mk_cool n m :: ys) b2 = merged_px lmax (xs ++ ys) b3.
+Proof. exact merge_assoc_max. Qed.
+Print Assumptions C07_merge_assoc_max.
+Theorem C07_merge_assoc_min : forall (n : nat) (xs ys : list (mcool Z)) (b1 b2 b3 : Z),
+  xs <> [] -> (1 <= n)%nat -> Forall (ValidIn n) xs -> Forall (ValidIn n) ys -> 0 <= b1 -> 0 <= b2 -> 0 <= b3 ->
+  exists m, merged_px lmin xs b1 = Ok m /\ merged_px lmin (mk_cool n m :: ys) b2 = merged_px lmin (xs ++ ys) b3.
+Proof. exact merge_assoc_min. Qed.
+Print Assumptions C07_merge_assoc_min.
+
 (** the output of a merge is again a valid input (closes the induction over merge histories) *)
 Theorem C07_merged_is_valid : forall (V : Type) (agg : list V -> V) (n : nat) (inputs : list (mcool V)),
   Forall (ValidIn n) inputs -> ValidIn n (mk_cool n (groupby_agg agg (allpx inputs))).
@@ -147,6 +189,49 @@ Theorem C07_row_aggregate_columnwise : forall ops rows j op, nth_error ops j = S
   nth j (agg_row ops rows) 0 = agg_col op (map (fun r => nth j r 0) rows).
 Proof. exact agg_row_nth. Qed.
 Print Assumptions C07_row_aggregate_columnwise.
+
+(** multi-column merges, column-wise: a summed column j of the merged table whose per-pixel sums fit int64 is the
+    canonical aggregate (Model/Pixels.v) of column j of all input records, total included *)
+Theorem C07_column_canon : forall ops (l : list (key * list Z)) j,
+  nth_error ops j = Some ASum ->
+  (forall k, In k (map fst l) -> - 2 ^ 63 <= sumZ (vals (colproj j l) k) < 2 ^ 63) ->
+  colproj j (groupby_agg (agg_row ops) l) = aggregate (colproj j l) /\
+  Canon (colproj j l) (colproj j (groupby_agg (agg_row ops) l)) /\
+  total (colproj j (groupby_agg (agg_row ops) l)) = total (colproj j l).
+Proof. exact column_canon. Qed.
+Print Assumptions C07_column_canon.
+
+(** "its recorded total is the sum of the input totals", guarded: with count (position i of the merged columns)
+    summed and no per-pixel sum leaving int64, info["sum"] is the int64 wrap of the exact sum of all input
+    counts, hence equal to it whenever that exact total fits int64 *)
+Theorem C07_total_exact_within_int64 : forall inputs buf columns dtypes aggs c i,
+  0 <= buf -> (1 <= c_nbins (hd c inputs))%nat ->
+  Forall (fun ci => ValidIn (c_nbins (hd ci inputs)) (as_mcool ci)) inputs ->
+  merge_coolers inputs buf columns dtypes aggs = Ok c ->
+  col_pos (map (fun c => (c, 0)) (mc_columns columns)) 0 = Some i ->
+  nth_error (mc_ops columns aggs) i = Some ASum ->
+  let all_counts := colproj i (allpx (proj_inputs inputs columns)) in
+  (forall k, In k (map fst all_counts) -> - 2 ^ 63 <= sumZ (vals all_counts k) < 2 ^ 63) ->
+  c_sum c = wrap64 (total all_counts) /\
+  (- 2 ^ 63 <= total all_counts < 2 ^ 63 -> c_sum c = total all_counts).
+Proof. exact total_exact_within_int64. Qed.
+Print Assumptions C07_total_exact_within_int64.
+
+(** the unguarded statement is FALSE of the faithful model and of the code (known finding D28): two inputs
+    whose own totals fit int64, no pixel in common, every stored pixel exact -- the recorded total wraps *)
+Theorem C07_total_exact_refuted :
+  exists inputs c, merge_coolers inputs 10 None [] [] = Ok c /\
+    c_px c = [((0, 1), [2 ^ 62]); ((1, 2), [2 ^ 62]); ((2, 2), [5])] /\
+    map c_sum inputs = [2 ^ 62; 2 ^ 62 + 5] /\
+    c_sum c = - 2 ^ 63 + 5 /\ sumZ (map c_sum inputs) = 2 ^ 63 + 5.
+Proof.
+  exists [ {| c_names := [0]; c_bins := [(0,0,10); (0,10,20); (0,20,30)]; c_symm := true; c_cols := [(0, 64)];
+              c_off := [0;1;1;1]; c_px := [((0,1),[2 ^ 62])]; c_sum := 2 ^ 62 |};
+           {| c_names := [0]; c_bins := [(0,0,10); (0,10,20); (0,20,30)]; c_symm := true; c_cols := [(0, 64)];
+              c_off := [0;0;1;2]; c_px := [((1,2),[2 ^ 62]); ((2,2),[5])]; c_sum := 2 ^ 62 + 5 |} ].
+  eexists. split; [vm_compute; reflexivity|]. repeat split; vm_compute; reflexivity.
+Qed.
+Print Assumptions C07_total_exact_refuted.
 
 (** the unguarded statement "a stored sum is never different from the exact sum unless an error is raised" is
     FALSE of the faithful model (and of the code: known finding D19): two int64 counts 2^62 *)
